@@ -242,7 +242,7 @@ func main() {
 	// the same histories one case at a time: nothing else in the process calls golib in between
 	r.Cases("kept-serial", r.N(8000, 200000), ev.Opt{HangViolation: true, Serial: true}, keptCase)
 	r.Cases("callback", r.N(40000, 1500000), ev.Opt{HangViolation: true, MaxCaseSeconds: 25}, callbackCase)
-	r.Cases("big", r.N(1600, 30000), ev.Opt{HangViolation: true}, bigCase)
+	r.Cases("big", r.N(1600, 12000), ev.Opt{HangViolation: true}, bigCase)
 	r.Cases("long-ident", r.N(1600, 40000), ev.Opt{HangViolation: true}, longIdentCase)
 	cold := r.N(24, 48)
 	r.CasesProc("cold-start", cold, ev.Opt{Procs: cold, HangViolation: true}, coldCase)
